@@ -32,14 +32,5 @@ def run(ctx):
     ctx.tlc("MC_Options", "MC_OptionsRT_" + t, replay="options",
             required_actions=[a for a in ARMS if a not in ("EqualsInPath", "SecondEqualsRejected")])
     n = 3000 if ctx.quick else 60000
-    trace = ctx.vh_record("options", "options.ndjson", ["n=%d" % n])
-    ok, msg, res = ctx.trace_check("Trace_Options", trace)
-    if ok:
-        ctx.traces_ok += sum(1 for _ in open(trace))
-        ctx.evaluations += sum(1 for _ in open(trace))
-        with open(trace) as f:
-            ctx.samples.append({"run": "Trace_Options", "event": json.loads(f.readline())})
-    else:
-        ctx.add_failure({"family": "options-trace", "case": {"trace": "vh record options n=%d" % n, "seed": ctx.seed},
-                         "detail": {"kind": "trace-rejected", "what": msg[:1500]}})
+    ctx.record_and_validate("options", "Trace_Options", ["n=%d" % n])
     ctx.exhaustive = True  # the (M)/(G) families are enumerated completely; the (T) part is random on top
